@@ -832,7 +832,7 @@ def exhaustive_shard(arg):
 
 def run(ctx):
     nsh = 16
-    per = ctx.n(3000, 25000)
+    per = ctx.n(2000, 25000)
     res = Result()
     for r in pmap('harness.props.c06', 'shard', [(ctx.seed, i, per) for i in range(nsh)]):
         res.merge(r)
